@@ -20,7 +20,8 @@ from qucumber.observables.observable import ProdObservable, SumObservable  # noq
 FILES = ["qucumber/observables/observable.py"]
 EXTRA_TRUSTED = ["C16: CPython binary-operator dispatch (forward / reflected methods; numpy scalars and arrays on the left of an observable returning NotImplemented because of ObservableBase.__array_ufunc__ = None) is part of the model (pyAdd/pySub/pyMul, Kind.reflected), tied to the interpreter only by the correspondence"]
 REQUIRED_THEOREMS = ["C16_apply_eq_eval", "C16_linear_iff_ok", "C16_error_kind", "C16_statistics", "C16_statistics_sampled",
-                     "C16_constructor_sum", "C16_constructor_prod", "C16_constructor_value"]
+                     "C16_constructor_sum", "C16_constructor_prod", "C16_constructor_value",
+                     "C16_name_of_build", "C16_named_build_is_build", "C16_system_keys_of_built"]   # extension round 2: names / symbols
 THEOREMS = {
     "apply": "C16_apply_eq_eval",
     "stats": "C16_statistics, C16_statistics_real",
@@ -1236,6 +1237,237 @@ def history_case(ctx, case):
     check_apply("after statistics()", st, cur, t, case["samples"])
 
 
+
+# ---------------------------------------------------------------- names and symbols (extension round 2: Composite.buildN / exprText)
+# `name` is the key under which System / ObservableEvaluator report an observable (C13, C17), `symbol` what str() shows.  The model
+# (Composite.buildN, Observables.Builtin.names) is compared with the real objects EXACTLY; the specification side (exprText,
+# C16_name_of_build) is re-stated independently in `py_expr_text`.  C16's own text does not speak about names: aux level here; the
+# keys of System.statistics / the evaluator's columns are compared at property level by harness/c13.py and harness/c17.py.
+NAME_THEOREM = "C16_name_of_build, C16_named_build_is_build"
+
+
+class PlainLeaf(ObservableBase):
+    """a user-written observable that never sets a name: the class name is the default"""
+
+    def apply(self, nn_state, samples):
+        return samples.to(torch.double).sum(1)
+
+
+class Energy(PlainLeaf):
+    pass
+
+
+NAME_CLASSES = {"PlainLeaf": PlainLeaf, "Energy": Energy}
+
+
+def flag_form(x):
+    """descriptor (model's PyFlag) of the OBJECT handed over as a boolean option"""
+    if isinstance(x, bool):
+        return {"form": 0, "value": int(x)}
+    if isinstance(x, np.bool_):
+        return {"form": 2, "value": int(bool(x))}
+    if isinstance(x, np.ndarray):
+        return {"form": 3, "value": int(bool(x))}
+    if isinstance(x, torch.Tensor):
+        return {"form": 4, "value": int(bool(x))}
+    return {"form": 1, "value": int(x)}
+
+
+def leaf_ident(o, given=None):
+    """the name-model's description of a LEAF object from its class and what the caller passed / assigned (never from .name itself):
+    built-ins by their constructor arguments, user classes by the strings `given` = (name, symbol) assigned through the setters"""
+    if type(o) in (SigmaX, SigmaY, SigmaZ):
+        return {"builtin": type(o).__name__}
+    if type(o) is SWAP:
+        return {"builtin": "SWAP"}
+    if type(o) is NeighbourInteraction:
+        return {"builtin": "NI", "periodic": flag_form(o.periodic_bcs), "c": int(o.c)}
+    nm, sy = given if given is not None else (None, None)
+    return {"cls": type(o).__name__, "name": nm, "symbol": sy}
+
+
+def make_named_leaf(spec):
+    """-> (leaf object, model description)"""
+    t = spec["type"]
+    if t in ("SigmaX", "SigmaY", "SigmaZ"):
+        o = {"SigmaX": SigmaX, "SigmaY": SigmaY, "SigmaZ": SigmaZ}[t](absolute=bool(spec.get("absolute", False)))
+        return o, leaf_ident(o)
+    if t == "SWAP":
+        o = SWAP(spec["A"])
+        return o, leaf_ident(o)
+    if t == "NI":
+        pb = qc.flag_value(spec["periodic"])
+        c = qc.int_value(spec["c_form"], spec["c"])
+        o = NeighbourInteraction(pb, c) if spec.get("pos") else NeighbourInteraction(periodic_bcs=pb, c=c)
+        return o, leaf_ident(o)
+    o = NAME_CLASSES[spec["cls"]]()
+    nm = sy = None
+    for step in spec.get("set", []):          # assignments through the setters, in order (None re-installs the default)
+        if step[0] == "name":
+            o.name = step[1]
+            nm = step[1]
+        else:
+            o.symbol = step[1]
+            sy = step[1]
+    return o, leaf_ident(o, (nm, sy))
+
+
+def py_scalar_text(x, nm):
+    return repr(x) if nm else str(x)
+
+
+def py_expr_text(node, leaftexts, nm):
+    """independent re-statement of the SPECIFICATION (exprText): -> (text, scalar value or None)"""
+    t = node[0]
+    if t == "leaf":
+        return leaftexts[node[1]][0 if nm else 1], None
+    if t == "const":
+        v = py_const(node)
+        return py_scalar_text(v, nm), v
+    if t == "neg":
+        a, va = py_expr_text(node[1], leaftexts, nm)
+        if va is not None:
+            return py_scalar_text(-va, nm), -va
+        return "-" + a, None
+    a, va = py_expr_text(node[1], leaftexts, nm)
+    b, vb = py_expr_text(node[2], leaftexts, nm)
+    if va is not None and vb is not None:
+        v = va + vb if t == "add" else (va - vb if t == "sub" else va * vb)
+        return py_scalar_text(v, nm), v
+    if t == "add":
+        return "(" + a + " + " + b + ")", None
+    if t == "sub":
+        return "(" + a + " + " + (py_scalar_text(-vb, nm) if vb is not None else "-" + b) + ")", None
+    return ("(" + a + " * " + b + ")" if va is not None else "(" + b + " * " + a + ")"), None
+
+
+def has_negative_zero(o):
+    """a float -0.0 among the scalars of a built object (the integer carrier of the name model cannot denote it)"""
+    if isinstance(o, (SumObservable, ProdObservable)):
+        return has_negative_zero(o.left) or has_negative_zero(o.right)
+    return isinstance(o, float) and o == 0 and math.copysign(1.0, o) < 0
+
+
+NAME_STRINGS = ["E", "-E", "(a + b)", "SigmaZ", "", "H_1", "x y", "Energy"]
+
+
+def gen_name_leaf(rng):
+    r = rng.random()
+    if r < 0.3:
+        return {"type": rng.choice(["SigmaX", "SigmaY", "SigmaZ"]), "absolute": rng.random() < 0.5}
+    if r < 0.38:
+        return {"type": "SWAP", "A": 1}
+    if r < 0.58:
+        return {"type": "NI", "periodic": {"form": rng.choice(qc.FLAG_FORMS), "value": rng.random() < 0.5},
+                "c": rng.randrange(1, 4), "c_form": rng.choice([f for f in qc.INT_FORMS if f != "np.uint8"]), "pos": rng.random() < 0.4}
+    steps = []
+    for _ in range(rng.choice([0, 0, 1, 1, 2, 3])):
+        steps.append([rng.choice(["name", "name", "symbol"]), rng.choice(NAME_STRINGS + [None])])
+    return {"type": "user", "cls": rng.choice(list(NAME_CLASSES)), "set": steps}
+
+
+def name_case(ctx, case):
+    built = [make_named_leaf(s) for s in case["leaves"]]
+    leaves, idents = [b[0] for b in built], [b[1] for b in built]
+    expr = case["expr"]
+    sig = "names/" + case.get("stream", "expr")
+    ctx.case({"names": True, "leaves": case["leaves"], "expr": expr, "ctor": case.get("ctor")}, nontrivial=stats_of(expr)["ops"] >= 2,
+             sample={"names": True, "expr": expr, "leaves": [s["type"] for s in case["leaves"]]})
+    ctx.count("names:case")
+    for s in case["leaves"]:
+        ctx.count("names:leaf=" + s["type"] + ("/" + "+".join(st[0] + ("=None" if st[1] is None else "") for st in s["set"]) if s.get("set") else ""))
+        if s["type"] == "NI":
+            ctx.count("names:NI periodic_bcs as " + s["periodic"]["form"])
+            ctx.count("names:NI c as " + s["c_form"])
+    leaftexts = [(l.name, l.symbol) for l in leaves]
+    ct = case.get("ctor")
+    try:
+        if ct:
+            a, b = py_build(ct["a"], leaves), py_build(ct["b"], leaves)
+            kw = {k: ct[k] for k in ("name", "symbol") if ct.get(k) is not None}
+            obj = (SumObservable if ct["which"] == "sum" else ProdObservable)(a, b, **kw)
+            ctx.count("names:ctor " + ct["which"] + " with " + ("+".join(sorted(kw)) or "default strings"))
+        else:
+            obj = py_build(expr, leaves)
+    except Exception as e:  # noqa: BLE001 - not a valid composite: nothing to name (rejection is judged by the build cases)
+        ctx.count("names:rejected:" + type(e).__name__)
+        return
+    if not isinstance(obj, ObservableBase):
+        ctx.count("names:scalar result")
+        return
+    if has_negative_zero(obj):
+        ctx.count("names:skipped (a float -0.0 operand: not denotable by the integer carrier)")
+        return
+    impl = {"name": obj.name, "symbol": obj.symbol, "repr": repr(obj), "str": str(obj)}
+    for tg in stats_of(expr)["tags"]:
+        ctx.count("names:op=" + tg)
+    # ---- the specification, independently (the library's strings are a function of the expression tree)
+    if not ct:
+        want = {"name": py_expr_text(expr, leaftexts, True)[0], "symbol": py_expr_text(expr, leaftexts, False)[0]}
+        want["repr"], want["str"] = want["name"], want["symbol"]
+        ctx.point("composite name / symbol / repr / str == text of the expression (independent re-statement)", "aux", impl, want, case,
+                  exact=True, theorem=NAME_THEOREM, sig=f"{sig}/spec")
+    if ctx.driver is None:
+        return
+    if ct:
+        m = ctx.driver.call("c16.names", leaves=idents, ctor=ct["which"], a=to_driver(ct["a"], "int"), b=to_driver(ct["b"], "int"),
+                            name=ct.get("name"), symbol=ct.get("symbol"))
+    else:
+        m = ctx.driver.call("c16.names", leaves=idents, expr=to_driver(expr, "int"))
+    ctx.point("leaf names and symbols (class-name default, setters, built-in constants)", "aux", [list(t) for t in leaftexts], m["leaves"], case,
+              exact=True, theorem=NAME_THEOREM, sig=f"{sig}/leaves")
+    if m.get("kind") != "obs":
+        ctx.point("names: model builds the observable", "aux", "obs", m.get("kind") or m.get("error") or m.get("operand_error"), case, exact=True,
+                  sig=f"{sig}/model-kind")
+        return
+    ctx.point("composite.name", "aux", impl["name"], m["name"], case, exact=True, theorem=NAME_THEOREM, sig=f"{sig}/name")
+    ctx.point("composite.symbol", "aux", impl["symbol"], m["symbol"], case, exact=True, theorem=NAME_THEOREM, sig=f"{sig}/symbol")
+    ctx.point("repr(composite) is its name, str(composite) its symbol", "aux", [impl["repr"], impl["str"]], [m["name"], m["symbol"]], case,
+              exact=True, theorem=NAME_THEOREM, sig=f"{sig}/repr-str")
+    ctx.point("named object has the structure of the built object", "aux", describe(obj, leaves, "int"), m["tree"], case, exact=True,
+              theorem="C16_named_build_is_build", sig=f"{sig}/tree")
+    if not ct:
+        ctx.point("model name == model exprText", "aux", [m["spec_name"], m["spec_symbol"]], [m["name"], m["symbol"]], case, exact=True,
+                  theorem="C16_name_of_build", sig=f"{sig}/model-spec")
+
+
+def fixed_name_cases():
+    L = [{"type": "SigmaX"}, {"type": "user", "cls": "Energy", "set": []}, {"type": "user", "cls": "PlainLeaf", "set": [["name", "E"], ["symbol", "e"]]},
+         {"type": "NI", "periodic": {"form": "torch_0d", "value": True}, "c": 2, "c_form": "t0d", "pos": True},
+         {"type": "user", "cls": "PlainLeaf", "set": [["name", "E"], ["name", None]]}]
+    X, En, E, NI, R = (["leaf", i] for i in range(5))
+    c = lambda k, v: ["const", k, v]  # noqa: E731
+    exprs = [["neg", X], ["neg", ["neg", En]], ["mul", X, c("int", -1)], ["mul", c("int", -1), X], ["sub", X, En], ["sub", c("int", 2), E],
+             ["sub", E, c("float", 2.0)], ["sub", E, c("npfloat", 2.0)], ["add", c("npfloat", 3.0), NI], ["mul", c("bool", 1), R],
+             ["add", ["mul", ["add", c("int", 2), c("float", 1.0)], X], ["neg", c("bool", 1)]], ["sub", ["neg", NI], ["mul", E, c("int", 3)]],
+             ["add", ["sub", ["neg", X], ["mul", c("int", 3), En]], c("int", 1)], ["mul", ["sub", c("int", 1), c("int", 3)], ["sub", X, R]]]
+    out = [{"stream": "fixed", "leaves": L, "expr": e} for e in exprs]
+    for which, a, b, nm, sy in (("sum", X, E, None, None), ("sum", X, c("int", 2), "total", None), ("prod", X, c("float", 2.0), None, "2x"),
+                                ("prod", c("int", 3), NI, "three", "3n"), ("sum", c("int", 1), ["neg", En], None, None), ("prod", En, c("bool", 1), None, None)):
+        out.append({"stream": "ctor", "leaves": L, "expr": ["add" if which == "sum" else "mul", a, b],
+                    "ctor": {"which": which, "a": a, "b": b, "name": nm, "symbol": sy}})
+    return out
+
+
+def gen_name_cases(ctx, scale):
+    rng = ctx.rng
+    cases = fixed_name_cases()
+    for _ in range(40 * scale):
+        nl = rng.randrange(1, 5)
+        leaves = [gen_name_leaf(rng) for _ in range(nl)]
+        cases.append({"stream": "valid", "leaves": leaves, "expr": gen_obs_expr(rng, "mock", rng.randrange(1, 6), nl)})
+    for _ in range(6 * scale):
+        nl = rng.randrange(1, 4)
+        leaves = [gen_name_leaf(rng) for _ in range(nl)]
+        a = gen_obs_expr(rng, "mock", rng.randrange(0, 3), nl, force_depth=False)
+        b = gen_scalar(rng, "mock") if rng.random() < 0.6 else gen_obs_expr(rng, "mock", rng.randrange(0, 2), nl, force_depth=False)
+        if rng.random() < 0.5:
+            a, b = b, a
+        which = rng.choice(["sum", "prod"])
+        cases.append({"stream": "ctor", "leaves": leaves, "expr": ["add" if which == "sum" else "mul", a, b],
+                      "ctor": {"which": which, "a": a, "b": b, "name": rng.choice([None, None, "given"]), "symbol": rng.choice([None, "g"])}})
+    return cases
+
 def run(ctx):
     ctx.rule = RULE
     scale = 1 if ctx.tier == "quick" else 10
@@ -1243,6 +1475,8 @@ def run(ctx):
         one_case(ctx, case)
     for k in range(10 * scale):
         history_case(ctx, gen_history(ctx.rng, "real" if k % 2 else "mock", ctx.rng.randrange(1, 5)))
+    for case in gen_name_cases(ctx, scale):
+        name_case(ctx, case)
 
 
 def search(ctx):
@@ -1253,11 +1487,16 @@ def search(ctx):
             one_case(ctx, case)
         for k in range(60):
             history_case(ctx, gen_history(ctx.rng, "real" if k % 2 else "mock", ctx.rng.randrange(1, 5)))
+        for case in gen_name_cases(ctx, 5):
+            name_case(ctx, case)
     finally:
         ctx.driver = drv
 
 
 def replay(ctx, case):
+    if case.get("names"):
+        name_case(ctx, case)
+        return
     if case.get("hist"):
         history_case(ctx, {k: v for k, v in case.items() if k != "step"})
         return
